@@ -353,6 +353,7 @@ type lessAdapter struct {
 	named    *types.Named
 	st       *types.Struct
 	latch    int                     // index of the failure latch field (bool or error), -1 if none
+	latchPath []int // the same as a path through embedded structs (nil: the latch is field `latch` itself)
 	latchErr bool                    // the latch is error-typed
 	fnFields []int                   // indices of func-typed fields
 	configs  []map[int]*ssa.Function // assignments of library functions to those fields that occur together (same block, same object)
@@ -380,20 +381,36 @@ func (c *Ctx) lessAdapters() []*lessAdapter {
 		named, _ := pt.Elem().(*types.Named)
 		ad := &lessAdapter{less: less, named: named, st: st, latch: -1}
 		hasNode := false
-		for i := 0; i < st.NumFields(); i++ {
-			ft := st.Field(i).Type()
-			switch {
-			case c.isASTNode(ft):
-				hasNode = true
-			case isBoolType(ft) || isErrorType(ft):
-				ad.latch = i
-				ad.latchErr = isErrorType(ft)
-			default:
-				if _, isSig := ft.Underlying().(*types.Signature); isSig {
-					ad.fnFields = append(ad.fnFields, i)
+		var scan func(s2 *types.Struct, path []int)
+		scan = func(s2 *types.Struct, path []int) {
+			for i := 0; i < s2.NumFields(); i++ {
+				ft := s2.Field(i).Type()
+				switch {
+				case c.isASTNode(ft):
+					hasNode = true
+				case isBoolType(ft) || isErrorType(ft):
+					if len(path) == 0 {
+						ad.latch = i
+					} else {
+						ad.latch = path[0]
+						ad.latchPath = append(append([]int(nil), path...), i)
+					}
+					ad.latchErr = isErrorType(ft)
+				default:
+					if _, isSig := ft.Underlying().(*types.Signature); isSig {
+						if len(path) == 0 {
+							ad.fnFields = append(ad.fnFields, i)
+						} else {
+							ad.opaque = true
+						}
+					}
+					if es, isStruct := ft.Underlying().(*types.Struct); isStruct && s2.Field(i).Embedded() && len(path) < 3 {
+						scan(es, append(append([]int(nil), path...), i))
+					}
 				}
 			}
 		}
+		scan(st, nil)
 		if !hasNode {
 			continue
 		}
@@ -557,26 +574,34 @@ func (ad *lessAdapter) object(c *Ctx, h *Heap, items AV, choice map[int]*ssa.Fun
 		}
 		return h.alloc(o)
 	}
-	o := &aobj{kind: 's'}
-	for i := 0; i < ad.st.NumFields(); i++ {
-		ft := ad.st.Field(i).Type()
-		switch {
-		case i == ad.latch && ad.latchErr:
-			o.fields = append(o.fields, AV{k: 'E', tri: 1})
-		case i == ad.latch:
-			o.fields = append(o.fields, AV{k: 'B', tri: 2})
-		case choice != nil && choice[i] != nil:
-			o.fields = append(o.fields, AV{k: 'U', fn: choice[i], what: choice[i].Name()})
-		case c.isASTNode(ft):
-			o.fields = append(o.fields, AV{k: 'O', what: "node expref-body"})
-		default:
-			if _, isSl := ft.Underlying().(*types.Slice); isSl {
-				o.fields = append(o.fields, items)
-			} else {
-				o.fields = append(o.fields, AV{k: 'P', tri: 2, what: "interp"})
+	var build func(s2 *types.Struct, top bool) []AV
+	build = func(s2 *types.Struct, top bool) []AV {
+		var fields []AV
+		for i := 0; i < s2.NumFields(); i++ {
+			ft := s2.Field(i).Type()
+			es, isStruct := ft.Underlying().(*types.Struct)
+			switch {
+			case isStruct && s2.Field(i).Embedded() && !c.isASTNode(ft):
+				fields = append(fields, AV{k: 'G', agg: &aggVal{fields: build(es, false)}, what: "struct"})
+			case (isBoolType(ft) || isErrorType(ft)) && isErrorType(ft):
+				fields = append(fields, AV{k: 'E', tri: 1})
+			case isBoolType(ft):
+				fields = append(fields, AV{k: 'B', tri: 2})
+			case top && choice != nil && choice[i] != nil:
+				fields = append(fields, AV{k: 'U', fn: choice[i], what: choice[i].Name()})
+			case c.isASTNode(ft):
+				fields = append(fields, AV{k: 'O', what: "node expref-body"})
+			default:
+				if _, isSl := ft.Underlying().(*types.Slice); isSl {
+					fields = append(fields, items)
+				} else {
+					fields = append(fields, AV{k: 'P', tri: 2, what: "interp"})
+				}
 			}
 		}
+		return fields
 	}
+	o := &aobj{kind: 's', fields: build(ad.st, true)}
 	return h.alloc(o)
 }
 
@@ -588,6 +613,12 @@ func (ad *lessAdapter) latched(h *Heap, id int) bool {
 	f := h.objs[id].fields[ad.latch]
 	if ad.closure {
 		f = h.objs[f.obj].v
+	}
+	for _, i := range ad.latchPathTail() {
+		if f.k != 'G' || f.agg == nil || i >= len(f.agg.fields) {
+			return true // cannot read the latch: assume it may be set
+		}
+		f = f.agg.fields[i]
 	}
 	if ad.latchErr {
 		return f.k != 'E' || f.tri&2 != 0
@@ -606,4 +637,12 @@ func (ad *lessAdapter) label(choice map[int]*ssa.Function) string {
 		}
 	}
 	return fname(ad.less) + "[" + strings.Join(n, ",") + "]"
+}
+
+// latchPathTail: the path from the top-level field to the latch inside embedded structs.
+func (ad *lessAdapter) latchPathTail() []int {
+	if len(ad.latchPath) < 2 {
+		return nil
+	}
+	return ad.latchPath[1:]
 }
